@@ -42,8 +42,8 @@ pub fn check_shape(forms: &[Sx]) -> Result<(), String> {
     if forms[0].head() != Some("use-modules") {
         return Err("first form is not (use-modules ...)".into());
     }
-    if forms[1].head() != Some("let*") {
-        return Err("second form is not (let* ...)".into());
+    if !matches!(forms[1].head(), Some("let*" | "let" | "letrec" | "letrec*")) {
+        return Err("second form is not a (let* ...) binding form".into());
     }
     Ok(())
 }
